@@ -1449,10 +1449,11 @@ def C18(ck):
 LEVEL['C14'] = 'model_checking'
 
 
-def _bitout_cfg(maxbits, bitsops, arrops, fail='{}', buf=64, closeimpl='fixed'):
-    mc = '---- MODULE MC_B ----\nEXTENDS KzBitOut\nMCBits == {%s}\nMCArr == {%s}\nMCFail == %s\n====\n' % (bitsops, arrops, fail)
-    c = ('CONSTANTS\n BUF = %d\n MaxBits = %d\n BitsOps <- MCBits\n ArrOps <- MCArr\n FailFlush <- MCFail\n CloseImpl = "%s"\nSPECIFICATION Spec\n'
-         'INVARIANTS Image Closed Counter CleanCur InBuffer PanicOnlyOnFault\nCHECK_DEADLOCK FALSE\n') % (buf, maxbits, closeimpl)
+def _bitout_cfg(maxbits, bitsops, arrops, fail='{}', buf=64, closeimpl='fixed', partial='{}', partialimpl='latch',
+                invs='Image Closed Counter CleanCur InBuffer PanicOnlyOnFault SinkPrefix'):
+    mc = '---- MODULE MC_B ----\nEXTENDS KzBitOut\nMCBits == {%s}\nMCArr == {%s}\nMCFail == %s\nMCPartial == %s\n====\n' % (bitsops, arrops, fail, partial)
+    c = ('CONSTANTS\n BUF = %d\n MaxBits = %d\n BitsOps <- MCBits\n ArrOps <- MCArr\n FailFlush <- MCFail\n PartialFlush <- MCPartial\n PartialImpl = "%s"\n'
+         ' CloseImpl = "%s"\nSPECIFICATION Spec\nINVARIANTS %s\nCHECK_DEADLOCK FALSE\n') % (buf, maxbits, partialimpl, closeimpl, invs)
     return mc, c
 
 
@@ -1500,7 +1501,11 @@ def C14(ck):
     out_runs = [(_bitout_cfg(700 if T else 600, '1,7,8,33,64', '8,64,65,200,256,257,520'), True, 'out A'),
                 (_bitout_cfg(600, '1,3,63', '0,1,9,63,448,456,512,1000' if T else '0,9,63,448,456,512'), True, 'out B'),
                 (_bitout_cfg(560, '8,64', '64,256,448', fail='{1}'), False, 'out flush 1 fails'),
-                (_bitout_cfg(560, '3,8', '64,300,456', fail='{2}'), False, 'out flush 2 fails')]
+                (_bitout_cfg(560, '3,8', '64,300,456', fail='{2}'), False, 'out flush 2 fails'),
+                # the sink accepts a part of a flush and reports an error (flush of a write, flush of Close), Close retried
+                (_bitout_cfg(300, '3,8', '64,200', fail='{1}', partial='{1}'), False, 'out partial write at flush 1'),
+                (_bitout_cfg(560, '8,64', '64,448', fail='{2}', partial='{2}'), False, 'out partial write at flush 2'),
+                (_bitout_cfg(200, '3,8', '64', fail='{1, 2}', partial='{2}'), False, 'out flush 1 fails, partial write at flush 2')]
     in_runs = [(_bitin_cfg('fixed', '1,7,8,13,64', '3,8,33', '8,64,128,300'), True, 'in A'),
                (_bitin_cfg('fixed', '5,9,64', '1,7,64', '0,63,256,520' if T else '63,256,520', n=120), True, 'in B'),
                (_bitin_cfg('fixed', '7,64', '3,8', '64,128', errat=40), False, 'in source error at 40'),
@@ -1512,7 +1517,11 @@ def C14(ck):
     selftests = [(_bitin_cfg('nocheck', '1,7,64', '3,8,33,64', '8,64,128,300', n=27, over=200, invs='OverreadFails'), 'asis-like ReadBits that trusts pull: over-read returns phantom bits'),
                  (_bitin_cfg('asis', '1,7,8,64', '3,8', '64,128,300'), 'asis short reads: spurious end of data'),
                  (_bitin_cfg('asis', '13,64', '3,8', '64,128,300'), 'asis short reads: bits out of order')]
-    out_selftests = [(_bitout_cfg(200, '3,8', '64', fail='{1}', closeimpl='asis'), 'asis failed Close keeps the padding subtracted from the counter (F19)')]
+    out_selftests = [(_bitout_cfg(200, '3,8', '64', fail='{1}', closeimpl='asis'), 'asis failed Close keeps the padding subtracted from the counter (F19)'),
+                     (_bitout_cfg(200, '3,8', '64', fail='{1}', partial='{1}', partialimpl='resend', invs='SinkPrefix'),
+                      'asis (before F13) partial write then retried Close: the buffer is sent again'),
+                     (_bitout_cfg(200, '3,8', '64', fail='{1}', partial='{1}', partialimpl='resume', invs='SinkPrefix Counter'),
+                      'asis-like resume after a partial write while Close restores its snapshot (seed C17c)')]
 
     def one(job):
         (mc, c), dump, label, mod = job
@@ -1548,7 +1557,7 @@ def C14(ck):
     _bits_run(ck, progs, 30000 if T else 3000, T, ('C14_',))
     ck.cov['rule'] = ('KzBitOut.tla and KzBitIn.tla (the real paths: accumulator, buffer thresholds, aligned / unaligned bulk paths, partial words, refill, '
                       'deferred error, Close) model-checked against the bit vector reference for a 64-byte buffer over operation menus around the 8/32-byte '
-                      'and 64/256-bit thresholds, all source chunkings, failing sink / source; the edge cover of each graph becomes programs executed on the '
+                      'and 64/256-bit thresholds, all source chunkings, failing sink / source, sinks that accept a part of a flush before they fail (with Close retried: SinkPrefix), requests beyond the end of the source (OverreadFails); the edge cover of each graph becomes programs executed on the '
                       'real streams (started so that the first buffer boundary falls where the model has it) and random long programs for buffers 1 KiB..256 KiB '
                       'and chunked sources; every operation is compared with a bit vector; Trace_Bits.tla judges counters (prefix sums of the operation sizes), '
                       'byte image, values read, refusal after Close. non-trivial = distinct program with >= 2 operations')
